@@ -37,32 +37,56 @@ fn o_decimal(v: u32, out: &mut [u8; 10]) -> usize {
     n
 }
 
+fn check_name(row: u32, col: u32) {
+    let v = coordinate_to_name((row, col)).unwrap();
+    let mut l = [0u8; 3];
+    let nl = o_letters(col, &mut l);
+    let mut d = [0u8; 10];
+    let nd = o_decimal(row + 1, &mut d);
+    assert!(v.len() == nl + nd);
+    let mut i = 0;
+    while i < nl {
+        assert!(v[i] == l[i]);
+        i += 1;
+    }
+    let mut j = 0;
+    while j < nd {
+        assert!(v[nl + j] == d[j]);
+        j += 1;
+    }
+}
+// coordinate_to_name = concat(letters(col), decimal(row + 1)): the two halves are independent, and a harness symbolic in both
+// does not finish (7 min probe), so each axis is swept separately.
 #[kani::proof]
 #[kani::unwind(12)]
-fn coordinate_to_name_spec() {
+fn coordinate_to_name_rows() {
+    let row: u32 = kani::any();
+    kani::assume(row < 100);
+    let k: u8 = kani::any();
+    let col = if k == 0 { 0 } else if k == 1 { 27 } else { 16383 };
+    kani::cover!(row == 99 && k == 2);
+    check_name(row, col);
+}
+#[kani::proof]
+#[kani::unwind(12)]
+fn coordinate_to_name_cols() {
+    let col: u32 = kani::any();
+    kani::assume(col < 16384);
+    kani::cover!(col == 16383);
+    kani::cover!(col == 26);
+    check_name(7, col);
+}
+#[kani::proof]
+fn coordinate_to_name_err() {
     let row: u32 = kani::any();
     let col: u32 = kani::any();
-    kani::assume(row < 100);
-    let r = coordinate_to_name((row, col));
-    if col >= 16384 {
-        assert!(r.is_err());
-    } else {
-        let v = r.unwrap();
-        let mut l = [0u8; 3];
-        let nl = o_letters(col, &mut l);
-        let mut d = [0u8; 10];
-        let nd = o_decimal(row + 1, &mut d);
-        assert!(v.len() == nl + nd);
-        let mut i = 0;
-        while i < nl {
-            assert!(v[i] == l[i]);
-            i += 1;
-        }
-        let mut j = 0;
-        while j < nd {
-            assert!(v[nl + j] == d[j]);
-            j += 1;
-        }
-        kani::cover!(nl == 3 && nd == 2);
-    }
+    kani::assume(col >= 16384 && row < u32::MAX);
+    assert!(coordinate_to_name((row, col)).is_err());
+}
+/// C06: no panic for any coordinate (fails: `cell.0 + 1` overflows for row == u32::MAX, which offset_cell_name produces from a negative offset)
+#[kani::proof]
+fn coordinate_to_name_total() {
+    let row: u32 = kani::any();
+    kani::assume(row >= 0xFFFF_FF00);
+    let _ = coordinate_to_name((row, 16384));
 }
